@@ -514,6 +514,82 @@ impl<'o, 'ast> Visit<'ast> for TableVisitor<'o> {
         }
         syn::visit::visit_expr_match(self, m);
     }
+    fn visit_expr_if(&mut self, i: &'ast syn::ExprIf) {
+        // a chain `if x == "a" { A } else if x == "b" { B } else { D }` is the same table as
+        // `match x { "a" => A, "b" => B, _ => D }`: dumped as a match (it takes the next match index)
+        fn str_eq(c: &syn::Expr) -> Option<(String, String)> {
+            if let syn::Expr::Binary(b) = c {
+                if let syn::BinOp::Eq(_) = b.op {
+                    if let syn::Expr::Lit(syn::ExprLit { lit: syn::Lit::Str(l), .. }) = &*b.right {
+                        return Some((ts(&b.left), l.value()));
+                    }
+                    if let syn::Expr::Lit(syn::ExprLit { lit: syn::Lit::Str(l), .. }) = &*b.left {
+                        return Some((ts(&b.right), l.value()));
+                    }
+                }
+            }
+            None
+        }
+        fn body_text(b: &syn::Block) -> String {
+            if b.stmts.len() == 1 {
+                if let syn::Stmt::Expr(e, None) = &b.stmts[0] {
+                    return ts(e);
+                }
+            }
+            ts(b)
+        }
+        let mut arms: Vec<(String, String)> = Vec::new();
+        let mut lhs: Option<String> = None;
+        let mut default: Option<String> = None;
+        let mut cur = i;
+        let mut links: Vec<&'ast syn::ExprIf> = Vec::new();
+        loop {
+            match str_eq(&cur.cond) {
+                Some((l, lit)) if lhs.is_none() || lhs.as_deref() == Some(l.as_str()) => {
+                    lhs = Some(l);
+                    arms.push((lit, body_text(&cur.then_branch)));
+                    links.push(cur);
+                }
+                _ => {
+                    arms.clear();
+                    break;
+                }
+            }
+            match &cur.else_branch {
+                Some((_, e)) => match &**e {
+                    syn::Expr::If(n) => cur = n,
+                    syn::Expr::Block(b) => {
+                        default = Some(body_text(&b.block));
+                        break;
+                    }
+                    other => {
+                        default = Some(ts(other));
+                        break;
+                    }
+                },
+                None => break,
+            }
+        }
+        if arms.is_empty() || default.is_none() {
+            syn::visit::visit_expr_if(self, i);
+            return;
+        }
+        let key = format!("{}::{}#m{}", self.file, self.ctx.join("::"), self.match_no);
+        self.match_no += 1;
+        self.o.put("match", &format!("{} @@ {}", key, lhs.unwrap_or_default()));
+        for (lit, body) in &arms {
+            self.o.put("arm", &format!("{} @@ {} @@ {} @@ {}", key, q(lit), "", body));
+        }
+        self.o.put("arm", &format!("{} @@ {} @@ {} @@ {}", key, "_", "", default.unwrap_or_default()));
+        for l in &links {
+            self.visit_block(&l.then_branch);
+        }
+        if let Some(last) = links.last() {
+            if let Some((_, e)) = &last.else_branch {
+                self.visit_expr(e);
+            }
+        }
+    }
     fn visit_item_struct(&mut self, i: &'ast syn::ItemStruct) {
         // struct definitions with their attributes (serde description of run-time library types)
         let key = format!("{}::{}", self.file, i.ident);
